@@ -6,11 +6,22 @@ different identifiers = the condition was refactored -> unrecognised (re-review)
 import json
 import os
 import re
-from astu import strip, walk, txt, short, functions_by
+from astu import C, ctxt, gt_pair, eq_const, strip, walk, txt, short, functions_by
 from vlib.core import ob, VERIF
 
 VERBS = re.compile(r"^(resize|rebuild|compress|compact|grow|purge|shrink|flush|move_window|promote|switch_to|convert|reduce_k|trim|sort|merge_|shift|downsample|upsize|internal_|process_|add_empty|ensure_|zip_|check_grow|checkGrow|growAux|growHash)")
 FLIP = {"<": ">", ">": "<", "<=": ">=", ">=": "<=", "==": "==", "!=": "!="}
+
+
+def _loc_key(x):
+    p = str(x.get("loc") or "").split(":")
+    try:
+        return (int(p[-2]), int(p[-1]))
+    except (ValueError, IndexError):
+        try:
+            return (int(p[-1]), 0)
+        except (ValueError, IndexError):
+            return (1 << 30, 0)
 
 
 def canon_env(fn):
@@ -27,6 +38,7 @@ def canon_env(fn):
                     decls[x["d"]] = x
                     order.append(x)
     walk(fn.get("body"), v)
+    order.sort(key=_loc_key)   # source order: independent of how branches are nested / flattened
     inl = {d: x["init"] for d, x in decls.items() if x.get("init") is not None}
     cnt = {}
     nread = 0
@@ -88,7 +100,7 @@ def inventory(facts):
         env = canon_env(fn)
 
         def v(n):
-            if n.get("k") in ("If", "While"):
+            if n.get("k") in ("If", "While") or (n.get("k") == "For" and n.get("was") == "While"):
                 c = strip(n["c"])
                 body = n.get("t") if n.get("k") == "If" else n.get("b")
                 calls = []
